@@ -1,41 +1,25 @@
 /-
-M-Idl, part 2: string literals — idl/internal/quote.go, composed exactly as the code composes it:
+M-Idl, part 2: string literals — idl/internal/quote.go (after the repair of D16/D66, /repo b668604):
 
-  UnquoteDoubleQuoted(in) = strconv.Unquote(bytes.ReplaceAll(in, `\'`, `'`))
-  UnquoteSingleQuoted(in) = swapQuotes(strconv.Unquote(swapQuotes(bytes.ReplaceAll(in, `\"`, `"`))))
+  UnquoteDoubleQuoted(in) = strconv.Unquote(requote(in, '"'))
+  UnquoteSingleQuoted(in) = strconv.Unquote(requote(in, '\''))
 
-`strconvUnquote` models Go's `strconv.Unquote` for interpreted (double-quoted) string syntax:
-the escapes \a \b \f \n \r \t \v \\ \" \xHH \ooo \uXXXX \UXXXXXXXX, raw bytes ≥ 0x80 decoded and
+`requote` rewrites the literal as a Go double-quoted literal in one pass that consumes every
+escape sequence whole: `\'` becomes `'`, an unescaped `"` becomes `\"`, everything else is copied
+(raw bytes that are not well-formed UTF-8 are written as `\xHH`, the repair of D65).
+`strconvUnquote` models Go's `strconv.Unquote` for interpreted (double-quoted) string syntax: the
+escapes \a \b \f \n \r \t \v \\ \" \xHH \ooo \uXXXX \UXXXXXXXX, raw bytes ≥ 0x80 decoded and
 re-encoded as UTF-8 (an invalid byte becomes U+FFFD, as `utf8.AppendRune(RuneError)` does), raw
-newline and every other escape (including `\'`) rejected. The blind `\'`→`'` replacement *before*
-unquoting is defect D16: it also rewrites the `\'` that ends an escaped backslash.
+newline and every other escape (including `\'`) rejected.
+
+(Before the repair the code replaced `\'` blindly and, for '…', swapped the quote characters of the
+source and of the *result*: D16 and D66. Their witnesses stay in corpus/C11.)
 
 Core-only.
 -/
 import ThriftVerif.Idl.Basic
 
 namespace ThriftVerif.Idl
-
-/-- `bytes.ReplaceAll(in, []byte{'\\', q}, []byte{q})` with the current byte `a` held:
-left-to-right, non-overlapping. -/
-def ueGo (q : UInt8) (a : UInt8) : Bytes → Bytes
-  | [] => [a]
-  | b :: rest =>
-    if a = 92 ∧ b = q then
-      q :: (match rest with
-            | [] => []
-            | c :: r' => ueGo q c r')
-    else a :: ueGo q b rest
-
-/-- quote.go `unescapeQuotes`. -/
-def unescapeQuotes (q : UInt8) : Bytes → Bytes
-  | [] => []
-  | a :: tl => ueGo q a tl
-
-def swapQuote (c : UInt8) : UInt8 := if c = 34 then 39 else if c = 39 then 34 else c
-
-/-- quote.go `swapQuotes`: `'` ↔ `"`. -/
-def swapQuotes (bs : Bytes) : Bytes := bs.map swapQuote
 
 /-! ### UTF-8 as `unicode/utf8` decodes it -/
 
@@ -150,13 +134,46 @@ def strconvUnquote (inp : Bytes) : Option Bytes :=
   | 34 :: rest => unqLoop (rest.length + 1) rest
   | _ => none
 
+/-- The body loop of quote.go `requote`: one escape sequence at a time. A raw byte ≥ 0x80 is
+copied with the rest of its UTF-8 sequence if it starts a well-formed one, and written as `\xHH`
+otherwise. (The `[]` results stand for cases `utf8Len` excludes.) -/
+def requoteBody : Bytes → Bytes
+  | [] => []
+  | c :: rest =>
+    if c = 92 then
+      match rest with
+      | [] => [92]
+      | e :: rest' => if e = 39 then 39 :: requoteBody rest' else 92 :: e :: requoteBody rest'
+    else if c = 34 then 92 :: 34 :: requoteBody rest
+    else if 0x80 ≤ c then
+      if utf8Len (c :: rest) = 2 then
+        match rest with
+        | b1 :: r => c :: b1 :: requoteBody r
+        | _ => []
+      else if utf8Len (c :: rest) = 3 then
+        match rest with
+        | b1 :: b2 :: r => c :: b1 :: b2 :: requoteBody r
+        | _ => []
+      else if utf8Len (c :: rest) = 4 then
+        match rest with
+        | b1 :: b2 :: b3 :: r => c :: b1 :: b2 :: b3 :: requoteBody r
+        | _ => []
+      else 92 :: 120 :: hexDigit (c.toNat / 16) :: hexDigit (c.toNat % 16) :: requoteBody rest
+    else c :: requoteBody rest
+
+/-- quote.go `requote`: a literal delimited by `q` as a Go double-quoted literal; anything that
+is not delimited by `q` on both sides is handed to `strconv.Unquote` as it is. -/
+def requote (q : UInt8) (inp : Bytes) : Bytes :=
+  match inp with
+  | [] => inp
+  | c0 :: rest =>
+    if c0 = q ∧ rest.getLast? = some q then 34 :: (requoteBody rest.dropLast ++ [34]) else inp
+
 /-- quote.go `UnquoteDoubleQuoted`. -/
-def unquoteDouble (inp : Bytes) : Option Bytes :=
-  strconvUnquote (unescapeQuotes 39 inp)
+def unquoteDouble (inp : Bytes) : Option Bytes := strconvUnquote (requote 34 inp)
 
 /-- quote.go `UnquoteSingleQuoted`. -/
-def unquoteSingle (inp : Bytes) : Option Bytes :=
-  (strconvUnquote (swapQuotes (unescapeQuotes 34 inp))).map swapQuotes
+def unquoteSingle (inp : Bytes) : Option Bytes := strconvUnquote (requote 39 inp)
 
 /-! ### Printers -/
 
@@ -181,7 +198,7 @@ written as it is. -/
 def quoteDouble (s : Bytes) : Bytes := 34 :: (quoteBody 34 false s ++ [34])
 /-- `'…'` with `\\`, `\'`, …; a double quote is written as it is. -/
 def quoteSingle (s : Bytes) : Bytes := 39 :: (quoteBody 39 false s ++ [39])
-/-- Printers that escape both quote characters (these round-trip on every byte string, D16 or not). -/
+/-- Printers that escape both quote characters. -/
 def quoteDoubleSafe (s : Bytes) : Bytes := 34 :: (quoteBody 34 true s ++ [34])
 def quoteSingleSafe (s : Bytes) : Bytes := 39 :: (quoteBody 39 true s ++ [39])
 
